@@ -37,3 +37,23 @@ package telemetrykeys
 //@   requires[C03,C12] safeSeq(keys)
 
 //@ type withTelemetry invariant[C03,C12] safeSeq(self.keys)
+
+// ---- GetTelemetryKeys: the set union of the keys of all layers (C19) ----
+// telIn(e, k, x): key x is attached to one of the first k layers of e's direct-cause chain
+//@ spec func telIn(e error, k int, x string) bool
+//@ unfold telIn(e, k, x) = k > 0 && (telIn(e, k - 1, x) || (typeis(chainAt(e, k - 1), *withTelemetry) && seqContains(chainAt(e, k - 1).(*withTelemetry).keys, x)))
+//@ spec func noDupKeys(s []string) bool = forall i int, j int :: 0 <= i && i < j && j < len(s) ==> s[i] != s[j]
+
+//@ func GetTelemetryKeys
+//@   props C19
+//@   ensures forall x string :: seqContains(result, x) <==> telIn(err, chainLen(err), x)
+//@   ensures noDupKeys(result)
+//@   loop 1: ghost k int = 0 step k + 1
+//@           invariant k >= 0 && err == chainAt(old(err), k) && (forall j int :: 0 <= j && j < k ==> chainAt(old(err), j) != nil)
+//@           invariant keys != nil
+//@           invariant forall x string :: keys.has(x) <==> telIn(old(err), k, x)
+//@   loop 2: invariant keys != nil
+//@           invariant forall x string :: keys.has(x) <==> (telIn(old(err), k, x) || (exists i int :: 0 <= i && i < $n && w.keys[i] == x))
+//@   loop 3: invariant forall x string :: seqContains(res, x) <==> (x in $visited)
+//@           invariant forall x string :: (x in $visited) ==> keys.has(x)
+//@           invariant noDupKeys(res)
